@@ -74,6 +74,41 @@ def register():
             return img_left
 
 
+LOPSIDED = {"verif_lopsided_a": (6, 0, 0, 0), "verif_lopsided_b": (0, 8, 1, 0), "verif_lopsided_c": (2, 2, 9, 0)}
+
+
+def register_lopsided_filters():
+    """identity filters whose margins differ from side to side (left, up, right, down): 'per side' must mean per side"""
+    from pandora import filter as pfilter
+    from pandora.margins import Margins
+
+    for name, sides in LOPSIDED.items():
+        if name in pfilter.AbstractFilter.filter_methods_avail:
+            continue
+
+        def make(name=name, sides=sides):
+            @pfilter.AbstractFilter.register_subclass(name)
+            class VerifLopsidedFilter(pfilter.AbstractFilter):
+                def __init__(self, *args, cfg=None, step=1, **kwargs):
+                    if set(cfg) - {"filter_method"}:
+                        raise KeyError("unknown parameter")
+                    self.cfg = {"filter_method": cfg["filter_method"]}
+
+                @property
+                def margins(self):
+                    return Margins(*sides)
+
+                def desc(self):
+                    pass
+
+                def filter_disparity(self, disp, img_left=None, img_right=None, cv=None):
+                    return None
+
+            return VerifLopsidedFilter
+
+        make()
+
+
 def pandora2d_entry(on=True):
     """The repo's own tests unlock matching-cost step > 1 with a dummy sys.modules['pandora2d'] entry."""
     if on:
